@@ -30,6 +30,7 @@ var (
 	reFlag   = flag.String("re", "", "regexp the scriggo output must match")
 	diffFlag = flag.Bool("diff", false, "keep candidates whose scriggo output differs from gc's")
 	runFlag  = flag.Bool("run", false, "internal: run the program under scriggo")
+	gcOK     = flag.Bool("gcok", false, "with -re: also require that gc runs the candidate to a normal end")
 	goBin    = flag.String("go", os.Getenv("VGO"), "go binary")
 )
 
@@ -61,7 +62,14 @@ func main() {
 		os.WriteFile(f, []byte(s), 0o644)
 		out := runChild(f)
 		if re != nil {
-			return re.MatchString(out)
+			if !re.MatchString(out) {
+				return false
+			}
+			if *gcOK {
+				want, ok := runGC(tmp, s)
+				return ok && !strings.Contains(want, "fatal error") && !strings.Contains(want, "panic:")
+			}
+			return true
 		}
 		if *diffFlag {
 			want, ok := runGC(tmp, s)
@@ -204,9 +212,13 @@ func runScriggo(src []byte) {
 		fmt.Println("BUILD ERROR:", err)
 		return
 	}
-	ctx, cancel := context.WithTimeout(context.Background(), 3*time.Second)
-	defer cancel()
-	err = p.Run(&scriggo.RunOptions{Context: ctx})
+	ro := &scriggo.RunOptions{}
+	if os.Getenv("NOCTX") == "" {
+		ctx, cancel := context.WithTimeout(context.Background(), 3*time.Second)
+		defer cancel()
+		ro.Context = ctx
+	}
+	err = p.Run(ro)
 	if err != nil {
 		if pe, ok := err.(*scriggo.PanicError); ok {
 			fmt.Fprintln(os.Stderr, "panic: "+strings.TrimRight(pe.Error(), "\n"))
